@@ -63,6 +63,8 @@ fixed("F25", "C08", "capacity-exceeded-running", {"what": "running"}, "9a2f4c9",
       "token files were named after the job only: with several schedulers running the same job under one token directory a late release by one scheduler deleted the file of the current holder, the directory showed free capacity and another job started (3 held of 2)")
 fixed("F26", "C06", "finished-state-overwritten", {"overwrite": "ERROR->DONE", "via": "aio_submit"}, "6eed4a7",
       "a job done from an earlier run, submitted after one of its dependencies failed in the current run, was set to ERROR (cancelled by dependency) and only then to DONE")
+fixed("F27", "C09", "token-file-left", {}, "336c7f9",
+      "two token files of one job (a job holding two tokens) are watched by two threads of a foreign scheduler; one thread's unlock of the job lock file drops the other's lock (POSIX per-process record locks), the job finishes and removes its pid file between the other thread's is_file() and read_text(): FileNotFoundError killed the watcher thread, the token file of the finished job stayed for ever and a waiting job was starved (1 of 2 400 quick runs under VERIF_SEED=2)")
 open_("K01", "C20", "repaired-job-relaunched", {"kind": "dep-root"},
       "after `deprecated list --fix [--cleanup]`, resubmitting a task whose own class was deprecated under another class name launches it again: the linked/moved folder keeps the marker, script and pid files named after the former class (olddleaf.done), the new job looks for <new name>.done",
       "repair is not small: fix_deprecated would have to rename or alias every per-job file (script, markers, pid, lock, logs) of the former task name, in link mode without touching the old folder; recorded instead")
